@@ -408,8 +408,14 @@ def rule_fdb(ctx: Ctx) -> List[Ob]:
                 for key, param in want.items():
                     es = [e_[0] for e_ in entries_of[key]]
                     oke = len(es) == 1 and src(es[0]) == param
+                    # ... and `param` is still what the caller passed: the constructor never rebinds it
+                    rebound = [x_ for x_ in ast.walk(init.node) if isinstance(x_, ast.Name) and x_.id == param and isinstance(x_.ctx, ast.Store)]
+                    note_ = ""
+                    if oke and rebound:
+                        oke = False
+                        note_ = f": `{param}` is reassigned at line {rebound[0].lineno} of the constructor -- the option is no longer the caller's value"
                     obs.append(ob("FDB", f"options['{key}'] is the caller's {param}", init, es[0] if es else init.node, oke,
-                                  f"{label}['{key}'] <- {[short(x) for x in es]}" + ("" if oke else
+                                  f"{label}['{key}'] <- {[short(x) for x in es]}" + note_ + ("" if oke or note_ else
                                   f": expected exactly one binding to `{param}` (the step of the scheme must not depend on anything else, e.g. the start point)"),
                                   False, construct=f"options['{key}'] = {param}"))
                 entries = entries_of["bounds"]
